@@ -18,6 +18,7 @@ macro "safe_step" : tactic => `(tactic| first
   | apply safe_guard
   | apply safe_allocSelf
   | apply safe_setData
+  | apply safe_incData
   | apply safe_whenD
   | apply safe_freeBuf
   | apply safe_reallocBuf
@@ -112,18 +113,47 @@ theorem safe_streamEncode (c : Chain) (act len : Nat) : Safe (streamEncode S c a
   · repeat safe_step
   · repeat safe_step
 
-theorem safe_streamDecoderInit : Safe (streamDecoderInit S) := by
+theorem safe_streamDecoderInit (ml : Nat) : Safe (streamDecoderInit S ml) := by
   unfold streamDecoderInit
   repeat safe_step
 
 theorem safe_streamDecodeBlock (c : Chain) : Safe (streamDecodeBlock S c) := by
-  have := safe_blockDecoderInit S c
+  have hb := safe_blockDecoderInit S c
   unfold streamDecodeBlock
-  repeat safe_step
+  refine safe_seq (safe_withTempOpts _ ?_) (safe_incData _)
+  intro n
+  simp only []
+  split
+  · exact safe_failOp _ n
+  · refine (safe_seq (safe_setData _ _) ?_) n
+    intro m
+    simp only []
+    split
+    · exact safe_failOp _ m
+    · exact safe_onSub0 hb m
 
 theorem safe_streamDecode (c : Chain) (b s : Nat) : Safe (streamDecode S c b s) := by
+  intro n
   unfold streamDecode
-  exact safe_repeatOp _ (safe_streamDecodeBlock S c)
+  exact safe_repeatOp _ (safe_streamDecodeBlock S c) n
+
+theorem safe_streamDecoderMemlimit (new : Nat) : Safe (streamDecoderMemlimit new) := by
+  intro n
+  unfold streamDecoderMemlimit
+  split
+  · exact safe_failOp _ n
+  · exact safe_setData _ _ n
+
+theorem safe_autoDecoderMemlimit (new : Nat) : Safe (autoDecoderMemlimit S new) := by
+  intro n
+  unfold autoDecoderMemlimit
+  split
+  · exact (safe_seq (safe_onSub0 (safe_streamDecoderMemlimit new)) (safe_setData _ _)) n
+  · split
+    · split
+      · exact safe_failOp _ n
+      · exact safe_setData _ _ n
+    · exact safe_failOp _ n
 
 theorem safe_aloneEncoderInit (f : Filter) : Safe (aloneEncoderInit S f) := by
   have := safe_nextFilterInit S true [f]
@@ -147,7 +177,7 @@ theorem safe_microDecoderInit : Safe (microDecoderInit S) := by
   unfold microDecoderInit
   repeat safe_step
 
-theorem safe_autoDecoderInit : Safe (autoDecoderInit S) := by
+theorem safe_autoDecoderInit (ml : Nat) : Safe (autoDecoderInit S ml) := by
   unfold autoDecoderInit
   repeat safe_step
 
@@ -177,7 +207,6 @@ theorem safe_fileInfoDecode (b s : Nat) : Safe (fileInfoDecode S b s) := by
 theorem safe_decodeOp (r : Recipe) : Safe (decodeOp S r) := by
   intro n
   simp only [decodeOp]
-  have h1 := safe_streamDecoderInit S
   have h2 := safe_lzipDecoderInit S
   have h3 := safe_aloneDecoderInit S
   split
@@ -190,7 +219,9 @@ theorem safe_decodeOp (r : Recipe) : Safe (decodeOp S r) := by
         · cases r <;> first | exact safe_lzmaDecodeInit S _ n | exact Spec.pure (by ceqn)
         · split
           · cases r with
-            | xz c b s => exact (safe_seq (safe_onSub0 h1) (safe_onSub0 (safe_streamDecode S c b s))) n
+            | xz c b s =>
+              exact (safe_seq (safe_whenD _ (safe_seq (safe_onSub0 (safe_streamDecoderInit S _)) (safe_setData _ _)))
+                (safe_onSub0 (safe_streamDecode S c b s))) n
             | lz d => exact (safe_seq (safe_onSub0 h2) (safe_onSub0 (safe_lzmaDecodeInit S d))) n
             | lzma d => exact (safe_seq (safe_onSub0 h3) (safe_onSub0 (safe_lzmaDecodeInit S d))) n
             | idx _ => exact Spec.pure (by ceqn)
